@@ -54,6 +54,19 @@ func retProv() godi.Provider                   { return nil }
 func multiScope() (*S0, godi.Scope)            { v, _ := mk0("B_multiscope", true); return v, nil }
 func outProvCtor() (outProv, error)            { v, err := mk0("B_outprov", true); return outProv{A: v}, err }
 func plainS0ForBad() (*S0, error)              { return mk0("B_plain", true) }
+func outNameGroupCtor() (outNameGroup, error) {
+	v, err := mk3("B_outnamegroup", true)
+	w, _ := mk0("B_outnamegroup0", true)
+	return outNameGroup{A: v, B: w}, err
+}
+
+// a result-object field carrying both a name and a group tag: the same invalid combination as
+// godi.Name + godi.Group on one registration
+type outNameGroup struct {
+	godi.Out
+	A *S3
+	B *S0 `name:"k" group:"g"`
+}
 func lifetimeAdder(c godi.Collection, life string) func(any, ...godi.AddOption) error {
 	switch life {
 	case "singleton":
@@ -103,6 +116,8 @@ func addItem(c godi.Collection, it *RItem) error {
 		return add(multiScope)
 	case "outprov":
 		return add(outProvCtor)
+	case "outnamegroup":
+		return add(outNameGroupCtor)
 	}
 	fmt.Fprintln(os.Stderr, "registry: unknown bad kind", it.Bad)
 	flushOut()
